@@ -400,6 +400,16 @@ func (ev *byteEval) call(fn *ssa.Function, args map[ssa.Value]int64, depth int) 
 // values v can have there and whether v was unknown on some path. Paths are cut at `at`; a state (edge + bound values)
 // is visited once, so loops terminate.
 func EvalAt(fn *ssa.Function, leaf func(ssa.Value) (int64, bool), at ssa.Instruction, v ssa.Value) (map[int64]bool, bool) {
+	return evalAt(fn, leaf, at, v, true)
+}
+
+// EvalAtAll is EvalAt without the cut: execution continues past `at`, so every arrival (each iteration of a loop
+// whose bounds evaluate) contributes a value.
+func EvalAtAll(fn *ssa.Function, leaf func(ssa.Value) (int64, bool), at ssa.Instruction, v ssa.Value) (map[int64]bool, bool) {
+	return evalAt(fn, leaf, at, v, false)
+}
+
+func evalAt(fn *ssa.Function, leaf func(ssa.Value) (int64, bool), at ssa.Instruction, v ssa.Value, cut bool) (map[int64]bool, bool) {
 	vals := map[int64]bool{}
 	unknown := false
 	if len(fn.Blocks) == 0 {
@@ -442,7 +452,9 @@ func EvalAt(fn *ssa.Function, leaf func(ssa.Value) (int64, bool), at ssa.Instruc
 				} else {
 					unknown = true
 				}
-				return
+				if cut {
+					return
+				}
 			}
 		}
 		if len(blk.Instrs) == 0 {
